@@ -1,34 +1,74 @@
 #!/usr/bin/env python3
 """C01 — security handshakes authenticate the remote peer's identity.  See DESIGN.md section 6 (C01)."""
-import os, sys
+import os, re, sys
 sys.path.insert(0, os.path.join(os.path.dirname(os.path.abspath(__file__)), "..", "tools"))
 from vlib import *
 
 HELPER = {"internal/verifc01/world.go": "harness/c01h/world.go"}
 PARTS = [
-    # (package, test, replay test, overlay entries)
+    # (package, test, replay test, overlay entries, case tags)
     ("p2p/security/noise", "TestVerifC01Noise$", "TestVerifC01NoiseReplay$",
-     {"p2p/security/noise/zz_c01_verif_test.go": "harness/overlay/noise/c01_verif_test.go"}),
+     {"p2p/security/noise/zz_c01_verif_test.go": "harness/overlay/noise/c01_verif_test.go"}, (1,)),
+    ("p2p/security/tls", "TestVerifC01TLS$", "TestVerifC01TLSReplay$",
+     {"p2p/security/tls/zz_c01_verif_test.go": "harness/overlay/tls/c01_verif_test.go"}, (2, 3)),
+    ("p2p/net/swarm", "TestVerifC01Swarm$", None,
+     {"p2p/net/swarm/zz_c01_verif_test.go": "harness/overlay/swarm/c01_verif_test.go"}, (4,)),
 ]
 
 
-def run_parts(ctx, casefile, tier, seed, which, extra_env=None):
-    """Run the per-package harness tests, each into its own file, and
-    concatenate the case files and the coverage counters."""
+def consts(ctx):
+    """Does PubKeyFromCertChain check the certificate's own signature explicitly?  (x509.Verify does
+    not, for a certificate that is itself in the root pool.)  Syntactic rule, then decided for real by
+    the correspondence: the harness presents certificates with a broken self-signature."""
+    src = open(os.path.join(REPO, "p2p/security/tls/crypto.go"), errors="replace").read()
+    m = re.search(r"func PubKeyFromCertChain\(.*?\n}\n", src, re.S)
+    body = m.group(0) if m else ""
+    flag = "CheckSignature" in body
+    ctx.add_const_raw("Definition tls_self_signature_checked : bool := %s." % ("true" if flag else "false"),
+                      "does PubKeyFromCertChain (p2p/security/tls/crypto.go) check the certificate's own signature explicitly (CheckSignature)?")
+    ctx.obligations.append(("consts:PubKeyFromCertChain found", bool(m), ""))
+
+
+def run_parts(ctx, casefile, tier, seed, which, extra_env=None, replay_tag=None):
+    """Run the per-package harness tests (in parallel), each into its own file,
+    and concatenate the case files and the coverage counters."""
+    import threading
+    results = {}
+
+    def one(idx, pkg, test, entries):
+        part = "%s.part%d" % (casefile, idx)
+        for p in (part, part + ".cov"):
+            if os.path.exists(p):
+                os.remove(p)
+        env = {"VERIF_OUT": part, "VERIF_TIER": tier, "VERIF_SEED": str(seed)}
+        if extra_env:
+            env.update(extra_env)
+        # each part needs its own overlay file: ctx.overlay() writes to a fixed path
+        ov = os.path.join(ctx.work, "overlay_part%d.json" % idx)
+        rep = {os.path.join(REPO, "internal/verifh/verifh.go"): os.path.join(VERIF, "harness/verifh/verifh.go")}
+        for k, v in dict(HELPER, **entries).items():
+            rep[os.path.join(REPO, k)] = os.path.join(VERIF, v)
+        with open(ov, "w") as f:
+            json.dump({"Replace": rep}, f, indent=1)
+        cmd = ["go", "test", "-tags", "verif", "-vet=off", "-overlay", ov, "-count=1", "-timeout", "3000s", "-run", test, "./" + pkg]
+        results[idx] = ctx.sh(cmd, cwd=REPO, env=env, timeout=3060) + (part,)
+
+    threads = []
+    for idx, (pkg, test, rtest, entries, tags) in enumerate(PARTS):
+        if which == "replay" and (rtest is None or replay_tag not in tags):
+            continue
+        th = threading.Thread(target=one, args=(idx, pkg, test if which == "run" else rtest, entries))
+        th.start()
+        threads.append(th)
+    for th in threads:
+        th.join()
     rc_all, out_all, cov = 0, "", {}
     with open(casefile, "w") as merged:
-        for idx, (pkg, test, rtest, entries) in enumerate(PARTS):
-            part = "%s.part%d" % (casefile, idx)
-            for p in (part, part + ".cov"):
-                if os.path.exists(p):
-                    os.remove(p)
-            env = {"VERIF_OUT": part, "VERIF_TIER": tier, "VERIF_SEED": str(seed)}
-            if extra_env:
-                env.update(extra_env)
-            rc, out = ctx.go_test(pkg, test if which == "run" else rtest, dict(HELPER, **entries), env=env, timeout=3000)
+        for idx in sorted(results):
+            rc, out, part = results[idx]
             if rc != 0 or not os.path.exists(part):
                 rc_all = rc or 1
-                out_all += "\n[%s]\n%s" % (pkg, out[-2500:])
+                out_all += "\n[%s]\n%s" % (PARTS[idx][0], out[-2500:])
                 continue
             with open(part) as f:
                 merged.write(f.read())
@@ -45,11 +85,11 @@ def harness(ctx, casefile, tier, seed):
 
 
 def replay_harness(ctx, casefile, toks):
-    return run_parts(ctx, casefile, ctx.tier, ctx.seed, "replay", {"VERIF_REPLAY_CASE": " ".join(map(str, toks))})
+    return run_parts(ctx, casefile, ctx.tier, ctx.seed, "replay", {"VERIF_REPLAY_CASE": " ".join(map(str, toks))}, replay_tag=toks[0])
 
 
 def warm(ctx):
-    for pkg, test, rtest, entries in PARTS:
+    for pkg, test, rtest, entries, tags in PARTS:
         rc, out = ctx.go_test(pkg, "TestVerifNothing$", dict(HELPER, **entries), timeout=1500)
         if rc != 0:
             ctx.obligations.append(("harness:compile:" + pkg, False, out[-1500:]))
@@ -66,6 +106,30 @@ def side(t):
     return {"holds": NAME.get(t[0]), "session_transport": t[1], "disable_check": t[2], "expects": NAME.get(t[3]), "prologue": t[4]}
 
 
+TCLS = {0: "accepted", 1: "peer ID mismatch", 2: "signature invalid", 3: "public key does not unmarshal", 4: "extension is not ASN.1",
+        5: "certificate verification failed", 6: "no libp2p extension", 7: "chain length != 1", 8: "x509 parse error"}
+
+
+def chain_of(t):
+    """decode CHAIN, return (description, rest)"""
+    n, t = t[0], t[1:]
+    certs = []
+    for _ in range(n):
+        key, signer, intact, timeok, ne = t[:5]
+        t = t[5:]
+        exts = []
+        for _ in range(ne):
+            k, crit, vk, pub, ss, sp, so = t[:7]
+            t = t[7:]
+            if k == 1:
+                exts.append({"libp2p": "not ASN.1" if not vk else {"pubkey": {4: "junk", 5: "empty"}.get(pub, NAME.get(pub)),
+                             "sig_by": {4: "junk", 5: "empty"}.get(ss, NAME.get(ss)), "prefixed": sp, "over_cert_key": so}, "critical": crit})
+            else:
+                exts.append({"other_oid": k, "critical": crit})
+        certs.append({"cert_key": key, "signed_by_cert_key": signer, "intact": intact, "time_valid": timeok, "extensions": exts})
+    return certs, t
+
+
 def describe(t):
     try:
         if t[0] == 1:
@@ -79,33 +143,79 @@ def describe(t):
             d["observed"] = [{"initiator": [CLS.get(o[i]), NAME.get(o[i + 1])], "responder": [CLS.get(o[i + 3]), NAME.get(o[i + 4])]}
                              for i in range(0, len(o) - 5, 6)]
             return d
+        if t[0] == 2:
+            ch, r = chain_of(t[3:])
+            return {"stack": "tls ConfigForPeer callback / PubKeyFromCertChain", "key_type": KT.get(t[1]), "expected": NAME.get(t[2]), "chain": ch,
+                    "callback": [TCLS.get(r[0]), NAME.get(r[1])], "PubKeyFromCertChain": [TCLS.get(r[2]), NAME.get(r[3])]}
+        if t[0] == 3:
+            r = t[3:]
+            sides = []
+            for _ in range(2):
+                ident, exp, holds = r[:3]
+                ch, r = chain_of(r[3:])
+                sides.append({"holds_identity": NAME.get(ident), "expects": NAME.get(exp), "holds_leaf_cert_key": holds, "chain": ch})
+            ekn = dict(EK)
+            ekn[8] = "duplicate of the last handshake record"
+            return {"stack": "tls handshake", "key_types": [KT.get(t[1]), KT.get(t[2])], "client": sides[0], "server": sides[1],
+                    "edit": {"kind": ekn.get(r[0]), "direction": {0: "client->server", 1: "server->client"}.get(r[1]), "record": r[2], "byte": r[3]},
+                    "client_observed": {"completed": r[4] == 0, "remote": NAME.get(r[5]), "post": r[7]},
+                    "server_observed": {"completed": r[8] == 0, "remote": NAME.get(r[9]), "post": r[11]}}
+        if t[0] == 4:
+            return {"stack": "swarm", "op": {0: "dialAddr", 1: "DialPeer", 2: "dialPeer over scripted dial sync"}.get(t[3]), "local": t[1], "dialled_peer": t[2],
+                    "transport_authenticated": t[4], "returned_conn": t[5], "returned_remote": t[6]}
     except Exception:
         pass
     return {"raw": t[:80]}
 
 
 def nontrivial(line):
-    # non-trivial: an edit was applied, a payload was forged, or some side refused
+    # non-trivial: an edit was applied, a payload/certificate deviates, some side refused, or a wrong-peer conn was offered
     t = line.split()
     if t[0] == b"1":
         return t[13] != b"0" or t[18] != b"0" or any(x != b"0" for x in t[24::3])
+    if t[0] == b"2":
+        return t[-4] != b"0" or t[-2] != b"0"
+    if t[0] == b"3":
+        return t[-12] != b"0" or t[-8] != b"0" or t[-4] != b"0"
+    if t[0] == b"4":
+        return t[4] != t[2]
     return True
 
 
 def key(tag, toks, d):
-    # identity of a failure: stack, clause, session/side, configuration, edit (without byte position), forge
+    # identity of a failure: stack, clause, call site/side, then the canonical history
     if toks[0] == 1:
         return "C01:noise:%s:%s:cfg=%s:edit=%s:forge=%s" % (tag, d[:4], toks[1:13], toks[13:17], toks[18:23])
-    return "C01:%s:%s:%s" % (toks[0], tag, " ".join(map(str, toks[:40])))
+    if toks[0] == 2 and tag == "M" and len(d) >= 4 and d[2] == 8:
+        # accepted a certificate that is not validly self-signed (1 signed by another key, 2 altered); d[1]: 0 callback, 1 direct
+        return "C01:tls:PubKeyFromCertChain:%s:self-signature-not-checked:%d" % ({0: "ConfigForPeer-callback", 1: "direct"}.get(d[1]), d[3])
+    if toks[0] == 3 and tag == "M" and len(d) >= 5 and d[3] == 8:
+        return "C01:tls:handshake:%s:self-signature-not-checked:%d" % ({0: "client", 1: "server"}.get(d[2]), d[4])
+    return "C01:%s:%s:%s:%s" % ({2: "tls-verify", 3: "tls-handshake", 4: "swarm"}.get(toks[0], toks[0]), tag, d[:5], " ".join(map(str, toks[:120])))
+
+
+CLAUSE = {1: "reported peer ID is not the ID of the reported public key", 2: "completed reporting a peer whose key the remote does not hold",
+          3: "completed with a peer other than the named expected peer", 4: "completed although it received edited/withheld/replayed handshake data",
+          5: "completed although the payload/certificate was produced with a substituted key or the peer lacks the certificate's private key",
+          6: "accepted a certificate chain that does not certify the reported key",
+          7: "a dial handed back a connection authenticated as another peer",
+          8: "accepted a certificate that is not validly self-signed (1 = signed with another key, 2 = altered after signing)"}
 
 
 def what(tag, toks, d):
-    clause = {1: "reported peer ID is not the ID of the reported public key", 2: "completed reporting a peer whose key the remote does not hold",
-              3: "completed with a peer other than the named expected peer", 4: "completed although it received edited/withheld/replayed handshake data",
-              5: "completed although the payload was signed with a substituted key"}
-    c = d[3] if len(d) > 3 else 0
-    return "%s: %s (session %s, %s); %s" % ({1: "noise"}.get(toks[0], toks[0]), clause.get(c, "diag %s" % d), d[1] if len(d) > 1 else "?",
-                                           {0: "initiator", 1: "responder"}.get(d[2] if len(d) > 2 else -1, "?"), json.dumps(describe(toks))[:400])
+    if toks[0] == 1:
+        c = d[3] if len(d) > 3 else 0
+        return "noise: %s (session %s, %s); %s" % (CLAUSE.get(c, "diag %s" % d), d[1] if len(d) > 1 else "?",
+                                                  {0: "initiator", 1: "responder"}.get(d[2] if len(d) > 2 else -1, "?"), json.dumps(describe(toks))[:400])
+    if toks[0] == 2:
+        c = d[2] if len(d) > 2 else 0
+        return "tls %s: %s %s" % ({0: "ConfigForPeer callback", 1: "PubKeyFromCertChain"}.get(d[1] if len(d) > 1 else -1), CLAUSE.get(c, "diag %s" % d), d[3:])
+    if toks[0] == 3:
+        c = d[3] if len(d) > 3 else 0
+        return "tls handshake, %s: %s %s" % ({0: "client", 1: "server"}.get(d[2] if len(d) > 2 else -1), CLAUSE.get(c, "diag %s" % d), d[4:])
+    if toks[0] == 4:
+        return "swarm: %s: %s" % (CLAUSE[7], json.dumps(describe(toks)))
+    return "diag %s" % d
 
 
 if __name__ == "__main__":
@@ -117,6 +227,7 @@ if __name__ == "__main__":
         "a duplicate of handshake message 2 or 3 arrives after the receiver's last handshake read: it is not handshake data for that receiver (it is rejected by the transport phase, C02)",
     ]
     standard_flow(ctx, dict(
+        consts=consts,
         coq_targets=["c01/Properties.vo", "c01/Extract.vo"],
         props="c01/Properties.v",
         spec_module="c01.Spec",
